@@ -331,11 +331,13 @@ class UpdateContract(Contract):
                            T.keeps_identity(c.eng, st_, bs.dict_get(c0, k0), bs.dict_has(c0, k0), bs.dict_get(dval(c), k0))),
                     z3.And(bs.dict_has(c1, k0), bs.dict_get(c1, k0) == bs.dict_get(c0, k0)))))
             out.extend(tree_consistency(c, i))
+            out.append(("C10:lock-tables-only-grow", locks_monotone(c)))
             return out
 
         def post_raise(c):
             i = info(c)
-            return [("alloc", c.post.g["Alloc"] >= c.pre.g["Alloc"])] + tree_consistency(c, i)
+            return [("alloc", c.post.g["Alloc"] >= c.pre.g["Alloc"]),
+                    ("C10:lock-tables-only-grow", locks_monotone(c))] + tree_consistency(c, i)
 
         return [
             Case("none", "normal", guard=lambda c: dval(c) == VNone, result=lambda c: Const(None)),
@@ -493,6 +495,7 @@ class LoadContract(Contract):
                    ("alloc", post.g["Alloc"] >= pre.g["Alloc"])]
             ri = node(c, pre, i["root"])
             out.extend(tree_consistency(c, ri))
+            out.append(("C10:lock-tables-only-grow", locks_monotone(c)))
             if c.mode == "assume":
                 post.event("load", i["root"].addr, cur(c), {m.addr: post.sel("View", z3.IntVal(m.addr))
                                                             for m in tree_nodes(pre, i["root"])})
@@ -510,7 +513,8 @@ class LoadContract(Contract):
             if c.mode == "assume":
                 c.post.event("io-fault", "_load")
             ri = node(c, c.pre, i["root"])
-            return [("alloc", c.post.g["Alloc"] >= c.pre.g["Alloc"])] + tree_consistency(c, ri)
+            return [("alloc", c.post.g["Alloc"] >= c.pre.g["Alloc"]),
+                    ("C10:lock-tables-only-grow", locks_monotone(c))] + tree_consistency(c, ri)
 
         return [
             Case("suspended", "normal", guard=lambda c: info(c)["susp"] > 0, result=lambda c: Const(None)),
